@@ -17,6 +17,7 @@
 package frame
 
 import (
+	"bytes"
 	"io"
 
 	"github.com/go-netty/go-netty"
@@ -39,7 +40,11 @@ func (*fixedLengthCodec) CodecName() string {
 }
 
 func (f *fixedLengthCodec) HandleRead(ctx netty.InboundContext, message netty.Message) {
-	ctx.HandleRead(io.LimitReader(utils.MustToReader(message), int64(f.length)))
+	// a frame is delivered only after it has been received completely.
+	frame := make([]byte, f.length)
+	n, err := io.ReadFull(utils.MustToReader(message), frame)
+	utils.AssertIf(nil != err, "read frame fail, frameLength: %d, read: %d, error: %w", f.length, n, err)
+	ctx.HandleRead(bytes.NewReader(frame))
 }
 
 func (f *fixedLengthCodec) HandleWrite(ctx netty.OutboundContext, message netty.Message) {
